@@ -37,10 +37,53 @@ fn scenario(ctx: &Ctx, idx: u64) -> Report {
         let one_way = *[5 * MS, 60 * MS, 250 * MS, 450 * MS].choose(&mut rng).unwrap();
         bed.net.set_link(Link::uniform(0, one_way));
 
-        let n_searches = rng.gen_range(1..=3);
+        let n_searches = rng.gen_range(1..=4);
         for s in 0..n_searches {
-            let ih = if s == 0 { target } else { gen::rand_id(&mut rng) };
+            // later searches: the same target again (the table now also holds the nodes the first
+            // search was told about but never heard from), a neighbour of it, or a fresh one
+            let ih = if s == 0 {
+                target
+            } else {
+                match rng.gen_range(0..10) {
+                    0..=4 => {
+                        report.count("repeated_searches_for_the_same_target");
+                        target
+                    }
+                    5 | 6 => {
+                        let mut t = target;
+                        t[19] ^= rng.gen::<u8>();
+                        t[18] ^= rng.gen::<u8>() & 0x0f;
+                        t
+                    }
+                    _ => gen::rand_id(&mut rng),
+                }
+            };
             let announce = rng.gen_bool(0.85);
+            // idle time before a later search: none, or long enough for table entries to age past
+            // 15 minutes (the refresh re-pings them bucket by bucket, so the table is in a mixed state)
+            if s > 0 {
+                let gap = match rng.gen_range(0..6) {
+                    0 | 1 => 0,
+                    2 => rng.gen_range(0..60 * SEC),
+                    3 => 15 * 60 * SEC + rng.gen_range(0..120 * SEC),
+                    4 => rng.gen_range(14 * 60 * SEC..17 * 60 * SEC),
+                    _ => rng.gen_range(0..40 * 60 * SEC),
+                };
+                if gap > 0 {
+                    crate::simnet::sleep_us(gap).await;
+                }
+                if gap >= 14 * 60 * SEC {
+                    report.count("searches_after_an_idle_period_of_15_minutes_or_more");
+                }
+            }
+            // a node without a single good contact does not search at all (C04); not this property's case
+            match crate::world::within(Duration::from_secs(2), bed.dht.get_state()).await {
+                Some(Some(st)) if st.good_node_count > 0 => {}
+                _ => {
+                    report.count("precondition_miss_no_good_contact");
+                    continue;
+                }
+            }
             let served_mark = bed.world.lock().unwrap().served.len();
             let log_mark = bed.net.log_len();
             let result = run_search(&bed.net, &bed.dht, ih, announce, Duration::from_secs(400)).await;
@@ -188,12 +231,13 @@ pub fn check(tier: Tier) -> Check {
             "datagrams reach the node tie-free (no two in the same millisecond, none in a tick where one of its query timers fires)",
         ],
         deciding: vec!["C02"],
-        streams: vec![Stream::new("omniscient", tier.pick(9_600, 30_000), scenario)],
+        streams: vec![Stream::new("omniscient", tier.pick(4_800, 30_000), scenario)],
         require: vec![
-            ("searches_with_premises_checked", tier.pick(9_000, 30_000)),
-            ("announce_targets_checked", tier.pick(36_000, 120_000)),
-            ("announce_tokens_checked", tier.pick(36_000, 120_000)),
-            ("stream_items_checked", tier.pick(60_000, 200_000)),
+            ("searches_with_premises_checked", tier.pick(4_500, 30_000)),
+            ("announce_targets_checked", tier.pick(18_000, 120_000)),
+            ("announce_tokens_checked", tier.pick(18_000, 120_000)),
+            ("searches_after_an_idle_period_of_15_minutes_or_more", tier.pick(1_000, 6_000)),
+            ("stream_items_checked", tier.pick(30_000, 200_000)),
         ],
         exhaustive: false,
     }
